@@ -345,6 +345,9 @@ void XMLPlatformUtils::Terminate()
     //
     XMLInitializer::terminateStaticData();
 
+    // Forget the DOM heap parameters of Initialize(initialDOMHeapAllocSize, ...)
+    XMLInitializer::terminateDOMHeap();
+
     // Delete any net accessor that got installed
     delete fgNetAccessor;
     fgNetAccessor = 0;
